@@ -422,6 +422,36 @@ func genPoolGated(w *bufio.Writer, rng *hx.Rng, tier, cmd string) {
 			fmt.Fprintf(w, "%s %s %d %d %s\n", cmd, k, c, c+1, strings.Join(ops, " "))
 		}
 	}
+	// two full episodes with idle heartbeat ticks in between: the heartbeat has to be alive for the
+	// lifetime of the pool, not only for the first time readers wait. Episode 1: fill, one (or two)
+	// slow-path gets served normally by back; everything returned; k ticks with nobody waiting;
+	// episode 2: fill, the gated lost-wake-up window, ticks.
+	for _, k := range kinds {
+		for c := 1; c <= 3; c++ {
+			for idle := 1; idle <= 3; idle += 2 {
+				for extra := 1; extra <= 2; extra++ {
+					var ops []string
+					for i := 0; i < c; i++ {
+						ops = append(ops, fmt.Sprintf("g%d", i))
+					}
+					for e := 0; e < extra; e++ {
+						ops = append(ops, fmt.Sprintf("g%d", c+e)) // parks: slow path, heartbeat started
+					}
+					for i := 0; i < c+extra; i++ {
+						ops = append(ops, fmt.Sprintf("b%d", i)) // waiters are served one by one
+					}
+					for i := 0; i < idle; i++ {
+						ops = append(ops, "h")
+					}
+					for i := 0; i < c; i++ {
+						ops = append(ops, fmt.Sprintf("g%d", i))
+					}
+					ops = append(ops, fmt.Sprintf("G%d", c), "b0", fmt.Sprintf("r%d", c), "h", "h", "h", fmt.Sprintf("b%d", c))
+					fmt.Fprintf(w, "%s %s %d %d %s\n", cmd, k, c, c+extra, strings.Join(ops, " "))
+				}
+			}
+		}
+	}
 	// exhaustive small scope: capacity 1, three readers, every op sequence of length L after "g0"
 	alpha := []string{"g1", "G1", "g2", "G2", "r1", "r2", "b0", "b1", "b2", "g0"}
 	L := 2
@@ -452,6 +482,29 @@ func genPoolGated(w *bufio.Writer, rng *hx.Rng, tier, cmd string) {
 				ops = append(ops, fmt.Sprintf("g%d", rng.Intn(n)))
 			} else {
 				ops = append(ops, fmt.Sprintf("b%d", rng.Intn(n)))
+			}
+		}
+		fmt.Fprintf(w, "%s %s %d %d %s\n", cmd, k, c, n, strings.Join(ops, " "))
+	}
+	// long random schedules at capacity 1..2: several full / idle episodes on one pool
+	for i := 0; i < nrand/5; i++ {
+		k := kinds[rng.Intn(2)]
+		c := rng.Range(1, 2)
+		n := c + rng.Range(1, 2)
+		var ops []string
+		for j := rng.Range(20, 36); j > 0; j-- {
+			r := rng.Intn(n)
+			switch rng.Intn(12) {
+			case 0, 1, 2:
+				ops = append(ops, fmt.Sprintf("g%d", r))
+			case 3:
+				ops = append(ops, fmt.Sprintf("G%d", r))
+			case 4, 5:
+				ops = append(ops, fmt.Sprintf("r%d", r))
+			case 6, 7, 8, 9:
+				ops = append(ops, fmt.Sprintf("b%d", r))
+			default:
+				ops = append(ops, "h")
 			}
 		}
 		fmt.Fprintf(w, "%s %s %d %d %s\n", cmd, k, c, n, strings.Join(ops, " "))
